@@ -154,6 +154,19 @@ def txMetaRead (feat : Features) (l : Ledger) (id : Nat) (pit : Option Int) : Me
     else metaAt l (.tx id) none
   | none => metaAt l (.tx id) none
 
+/-- C17's documented metadata of a transaction at `t`: the metadata it was committed with, then the
+    saves / deletes dated at or before `t` (a transaction that is visible at `t` — timestamp ≤ t —
+    shows its initial metadata even when it was inserted later: the read is in effective time). -/
+def txMetaDocStep (id : Nat) (t : Option Int) (m : Metadata) : Event → Metadata
+  | .committed tx _ _ => if tx.id = id then applyChange m (.save tx.metadata) else m
+  | .metaWrite e =>
+    let inTime := match t with | none => true | some t => decide (e.date ≤ t)
+    if e.target = .tx id && inTime then applyChange m e.change else m
+  | .reverted _ _ => m
+
+def txMetaDoc (l : Ledger) (id : Nat) (t : Option Int) : Metadata :=
+  l.events.foldl (txMetaDocStep id t) []
+
 /-- `reverted_at` as the dataset shows it: masked when the revert is after `pit`. -/
 def maskReverted (pit : Option Int) (r : Option Int) : Option Int :=
   match pit, r with
